@@ -317,6 +317,30 @@ func Try(f func()) (panicked bool) {
 
 func PanicMsg() string { return lastPanic }
 
+// Terminates runs f and reports a violation "<label>:no-termination" if it does
+// not finish within a generous wall-clock bound (an unbounded recursion kills
+// the process with a stack overflow, which the checker recognises as well).
+func Terminates(f func(), label string) bool {
+	done := make(chan struct{})
+	var pv interface{}
+	go func() {
+		defer close(done)
+		defer func() { pv = recover() }()
+		f()
+	}()
+	select {
+	case <-done:
+		if pv != nil {
+			panic(pv)
+		}
+		return true
+	case <-time.After(20 * time.Second):
+		Failures = append(Failures, label+":no-termination")
+		fmt.Printf("ASSERT-FAIL %s:no-termination\n", label)
+		return false
+	}
+}
+
 var pending []chan struct{}
 
 // Concurrently runs f as another thread of control started at this point. It
